@@ -152,13 +152,13 @@ def main():
             {"name": ENGINE_A, "path": "/verif/sim/harness", "serves_properties": sorted(p for p, v in CLAIMED.items() if v[0] == ENGINE_A),
              "kind_free_text": "one real chain (any preset) driven through the public API in a seeded simulation: stub densities with fault injection by evaluation index, seeded chain RNG, history oracles and reference models"},
             {"name": ENGINE_B, "path": "/verif/sim/harness + /verif/sim/rt", "serves_properties": sorted(p for p, v in CLAIMED.items() if v[0] == ENGINE_B),
-             "kind_free_text": "the real parallel Sampler (controller + chain workers) as shuttle tasks under the harness's own seeded scheduler; simulated clock/timeouts; rayon stand-in; fault-injecting model and storage stubs"},
+             "kind_free_text": "the real parallel Sampler (controller + chain workers) as shuttle tasks under the harness's own seeded scheduler; simulated clock/timeouts; rayon stand-in; fault-injecting model and recording storage that tees into the real HashMap / ndarray backends; decision-list schedule minimisation; also serves the sampler part of C15 (flush forwarding) and C13's real-Zarr-backend batches run next to it"},
             {"name": ENGINE_C, "path": "/verif/sim/harness", "serves_properties": sorted(p for p, v in CLAIMED.items() if v[0] == ENGINE_C),
              "kind_free_text": "real storage backends driven through the storage traits against a recording model; fault/crash-snapshot store for Zarr; seeded hash order"},
         ],
         "checks": checks,
         "not_applicable": na,
-        "notes": "All checks are one binary (/verif/sim/harness, `nutsim`); `./check <id>` rebuilds incrementally from /repo's working tree. VERIF_SEED / --seed select the batch (default fixed). Exit 2 = harness error. Known findings: /verif/known_findings.jsonl.",
+        "notes": "All checks are one binary (/verif/sim/harness, `nutsim`); `./check <id>` rebuilds incrementally from /repo's working tree. VERIF_SEED / --seed select the batch (default fixed). Exit 2 = harness error. Known findings: /verif/known_findings.jsonl. Helper scripts (not registered commands): multiseed.sh (false-alarm sweep over VERIF_SEED values), determinism.sh, seedtest.sh / confirm_seed.sh (seeded changes under /verif/seeded), refactortest.sh (behaviour-preserving refactorings under /verif/refactors), thorough_all.sh (thorough tier of every check, evidence copied to /verif/evidence_thorough).",
     }
     with open(os.path.join(ROOT, "MANIFEST.json"), "w") as f:
         json.dump(manifest, f, indent=1)
